@@ -40,7 +40,13 @@ pub struct Mc {
 
 pub fn build(mut t: Tape, subset: u32, entry_sel: u64) -> Mc {
     let speaks: Vec<Variant> = ORDER.iter().enumerate().filter(|(i, _)| subset & (1 << i) != 0).map(|(_, v)| *v).collect();
-    let host = McHost::generate(&mut t, speaks.clone());
+    let mut host = McHost::generate(&mut t, speaks.clone());
+    // a host that does not answer the 1.4 ping in the old format may answer it in the 1.6 format (servers
+    // from 1.6 on do): the query for 1.4 then returns that reply, as what it is
+    let answers_14_as_16 = entry_sel >= 8 && !speaks.contains(&Variant::L14) && speaks.contains(&Variant::L16) && t.draw(CFG, 3) == 0;
+    if answers_14_as_16 {
+        host.unspoken.insert(Variant::L14, crate::models::minecraft::Unspoken::As16);
+    }
     let port = if t.draw(CFG, 2) == 0 { None } else { Some(1024 + t.draw(CFG, 60_000) as u16) };
     let lg = |v: Variant| {
         match v {
@@ -70,7 +76,11 @@ pub fn build(mut t: Tape, subset: u32, entry_sel: u64) -> Mc {
             let v = legacy[(n as usize - 8) % 3];
             let game_level = n >= 11 || t.draw(CFG, 2) == 1;
             let e = if game_level { Entry::McGameLegacySpecific(lg(v)) } else { Entry::McLegacySpecific(lg(v)) };
-            (e, !game_level, 25565, host.legacy.expected(v), !speaks.contains(&v), None)
+            if v == Variant::L14 && answers_14_as_16 {
+                (e, !game_level, 25565, host.legacy.expected(Variant::L16), false, None)
+            } else {
+                (e, !game_level, 25565, host.legacy.expected(v), !speaks.contains(&v), None)
+            }
         }
     };
     let default_port = match entry {
